@@ -78,7 +78,8 @@ STALE = b"left behind by an earlier invocation\n"
 
 def run_cache(ctx, tr, data: bytes, omit, dep, eb, via, scn):
     d = ctx.tmp("c11")
-    inp, oute, outc = d / "in.suit", d / "out.suit", d / "cache.bin"
+    dots = len(data) % 2 == 0   # output names with more than one dot
+    inp, oute, outc = d / "in.suit", d / ("out.v2.suit" if dots else "out.suit"), d / ("cache.part.0.bin" if dots else "cache.bin")
     inp.write_bytes(data)
     core.through_link(inp, len(data) % 4 == 1)
     err = None
@@ -132,7 +133,8 @@ def run_cache(ctx, tr, data: bytes, omit, dep, eb, via, scn):
 
 def run_one(ctx, tr, data: bytes, name, replace: bytes | None, tofile: bool, via, scn):
     d = ctx.tmp("c11o")
-    inp, oute, outp, rep = d / "in.suit", d / "out.suit", d / "payload.bin", d / "rep.bin"
+    dots = len(data) % 2 == 0
+    inp, oute, outp, rep = d / "in.suit", d / ("out.v2.suit" if dots else "out.suit"), d / ("payload.app.bin" if dots else "payload.bin"), d / "rep.bin"
     inp.write_bytes(data)
     if replace is not None:
         rep.write_bytes(replace)
